@@ -44,6 +44,9 @@ func c04RPCs(tier string) []RPC {
 	} {
 		out = append(out, RPC{Kind: "cs", Client: []string{"S0", "S1", "C", "R*"}, Handler: h})
 	}
+	// single-response stream: receives issued after the one that reported the outcome
+	out = append(out, RPC{Kind: "cs", Client: []string{"S0", "C", "R*", "R", "R"}, Handler: []string{"r*", "s0", "ret:ok"}})
+	out = append(out, RPC{Kind: "cs", Client: []string{"S0", "C", "H", "R*", "R", "T"}, Handler: []string{"r*", "h:a", "s0", "t:b", "ret:ok"}})
 	// bidi 1<->1
 	out = append(out, RPC{Kind: "bd", Client: []string{"S0", "C", "R*"}, Handler: []string{"r*", "s0", "ret:ok"}})
 	out = append(out, RPC{Kind: "bd", Client: []string{"S0", "C", "R*", "R"}, Handler: []string{"r*", "s0", "t:b", "ret:st:5"}})
